@@ -54,6 +54,9 @@ CHECKS = {
  "C19": ("model_checking", "exhaustive enumeration of the CONNECT credential space x hash algorithms, of account-API histories with broker restarts, and of unauthenticated packet sequences on TCP and WebSocket, on the real in-process broker with the real auth plugin",
   "For each of plain/md5/sha256/bcrypt: every combination of version x user name shape x password shape x v5 authentication-method properties; CONNACK success iff the user is a stored account whose stored hash matches; refused connects leave no client/session. Every sequence of <=3 (quick) / <=4 (thorough) account operations (create, change, delete, restart) x hash x absolute/relative password file, probing four credential pairs after every step and parsing the file on disk. Every sequence of <=2 packets of 8 kinds before CONNECT and after a failed CONNECT, v3.1.1/v5, TCP and WebSocket handler: services unchanged, bystander receives nothing, no reply other than a failing CONNACK/DISCONNECT.",
   "The gRPC/HTTP account API transport is not in the loop (the handlers are called directly). WebSocket is driven through the real handler over an in-memory conn with a fake hijackable ResponseWriter. Trusted: reference hashing (std lib, x/crypto), refmqtt.", "DESIGN.md 8/C19"),
+ "C15": ("model_checking", "stateless schedule model checking of the real broker under a cooperative scheduler: deviation-bounded DFS over all synchronisation points of 9 concurrent scenarios",
+  "Nine concurrent scenarios (two take-overs of an online client, subscribe vs publish vs kill, QoS2 flow vs acks vs DISCONNECT, Stop vs CONNECT vs API publish, TerminateSession vs reconnect vs sweeper tick, API publish/subscribe/stats vs client publish, delayed-will timer vs Stop, take-over of a stalled reader, client killed with a full in-flight window then reconnect) are executed under every schedule with <=1 (quick) / <=2 (thorough) deviations; after each execution: no panic (escaped or recovered), no deadlock, every request answered or its socket closed, Stop returns with listener and connections closed, Unload and OnStop exactly once, no broker goroutine left.",
+  "Schedules switch only at synchronisation operations (sound for data-race-free code); a deviation demotes the running thread until all others are blocked. Data-race freedom itself cannot be decided by a cooperative scheduler (its hand-offs are happens-before edges) and is NOT claimed by this check. Weak memory effects and TCP RST are not modelled.", "DESIGN.md 8/C15"),
 }
 NA_DEFAULT = "check not built yet in this session (planned design in DESIGN.md section 8)"
 
